@@ -5,7 +5,8 @@
      records the representation: int / float / numpy scalar) | +-inf | NaN (id = object
      identity, irrelevant to eq) | str | datetime-like (microseconds) |
      tuple | list | dict (cls 0 = dict, other = a subclass; items in insertion order) |
-     ndarray (shape, cells row-major) | Series (index, cells) | DataFrame (index, columns,
+     instance of a tuple / list SUBCLASS or namedtuple (VSeq cls) | any other finite float m*2^e, m odd, e < -1 (VFlt;
+     equal only to the same float) | ndarray (shape, cells row-major) | Series (index, cells) | DataFrame (index, columns,
      cells row-major).
 
    eq(x, y) is transcribed arm by arm:
@@ -29,8 +30,10 @@ Inductive val :=
 | VNaN (id : N)
 | VStr (s : string)
 | VDate (us : Z)
+| VFlt (m : Z) (e : Z)
 | VTuple (l : list val)
 | VList (l : list val)
+| VSeq (cls : N) (l : list val)
 | VDict (cls : N) (items : list (string * val))
 | VArr (shape : list Z) (cells : list val)
 | VSeries (index : list val) (cells : list val)
@@ -46,7 +49,7 @@ Definition forall2b {A B} (f : A -> B -> bool) :=
 
 Definition is_container (v : val) : bool :=
   match v with
-  | VTuple _ | VList _ | VDict _ _ | VArr _ _ | VSeries _ _ | VFrame _ _ _ => true
+  | VTuple _ | VList _ | VSeq _ _ | VDict _ _ | VArr _ _ | VSeries _ _ | VFrame _ _ _ => true
   | _ => false
   end.
 
@@ -68,6 +71,7 @@ Definition scalar_eqb (x y : val) : bool :=
       | VInf a, VInf b => Bool.eqb a b
       | VStr a, VStr b => String.eqb a b
       | VDate a, VDate b => Z.eqb a b
+      | VFlt a c, VFlt b d => Z.eqb a b && Z.eqb c d
       | _, _ => false
       end
   | _, _ => false
@@ -81,6 +85,7 @@ Fixpoint eq_core (x y : val) {struct x} : bool :=
   match x with
   | VTuple l => match y with VTuple l' => forall2b eq_core l l' | _ => false end
   | VList l => match y with VList l' => forall2b eq_core l l' | _ => false end
+  | VSeq cls l => match y with VSeq cls' l' => N.eqb cls cls' && forall2b eq_core l l' | _ => false end
   | VArr sh c =>
       match y with
       | VArr sh' c' => shape_eqb sh sh' && (has_zero sh || forall2b eq_core c c')
@@ -125,6 +130,7 @@ Fixpoint norm (v : val) : val :=
   match v with
   | VTuple l => VTuple (map norm l)
   | VList l => VList (map norm l)
+  | VSeq c l => VSeq c (map norm l)
   | VDict cls items => VDict cls (sort_items (map (fun kv => (fst kv, norm (snd kv))) items))
   | VArr sh c => VArr sh (map norm c)
   | VSeries ix c => VSeries (map norm ix) (map norm c)
@@ -143,6 +149,7 @@ Fixpoint refresh (f : N -> N) (v : val) : val :=
   | VNaN id => VNaN (f id)
   | VTuple l => VTuple (map (refresh f) l)
   | VList l => VList (map (refresh f) l)
+  | VSeq c l => VSeq c (map (refresh f) l)
   | VDict cls items => VDict cls (map (fun kv => (fst kv, refresh f (snd kv))) items)
   | VArr sh c => VArr sh (map (refresh f) c)
   | VSeries ix c => VSeries (map (refresh f) ix) (map (refresh f) c)
@@ -150,10 +157,10 @@ Fixpoint refresh (f : N -> N) (v : val) : val :=
   | s => s
   end.
 
-Inductive kind := KScalar | KTuple | KList | KDict (cls : N) | KArr | KSeries | KFrame.
+Inductive kind := KScalar | KTuple | KList | KSeq (cls : N) | KDict (cls : N) | KArr | KSeries | KFrame.
 Definition kind_of (v : val) : kind :=
   match v with
-  | VTuple _ => KTuple | VList _ => KList | VDict c _ => KDict c | VArr _ _ => KArr
+  | VTuple _ => KTuple | VList _ => KList | VSeq c _ => KSeq c | VDict c _ => KDict c | VArr _ _ => KArr
   | VSeries _ _ => KSeries | VFrame _ _ _ => KFrame | _ => KScalar
   end.
 
@@ -185,7 +192,7 @@ Fixpoint py_eq (x y : val) {struct x} : bool :=
                              end) items
       | _ => false
       end
-  | VNaN _ | VArr _ _ | VSeries _ _ | VFrame _ _ _ => false
+  | VNaN _ | VSeq _ _ | VArr _ _ | VSeries _ _ | VFrame _ _ _ => false
   | _ => if is_container y then false else scalar_eqb x y
   end.
 
@@ -198,7 +205,7 @@ Fixpoint nodup_keys {A} (l : list (string * A)) : bool :=
 (* plain: what the last clause of the property ranges over *)
 Fixpoint plain (v : val) : bool :=
   match v with
-  | VNaN _ | VArr _ _ | VSeries _ _ | VFrame _ _ _ => false
+  | VNaN _ | VSeq _ _ | VArr _ _ | VSeries _ _ | VFrame _ _ _ => false
   | VTuple l | VList l => forallb plain l
   | VDict cls items => N.eqb cls 0 && nodup_keys items && forallb (fun kv => plain (snd kv)) items
   | _ => true
